@@ -1,11 +1,12 @@
 (** C08 obligation: whatever text the parser accepts is properly nested *)
-From OfxV Require Import Base.Prelude Base.SgmlBase Model.Sgml Model.SgmlSpec Proofs.SgmlNest Proofs.SgmlScan Proofs.SgmlFaithful Proofs.SgmlReject.
+From OfxV Require Import Base.Prelude Base.SgmlBase Model.Sgml Model.SgmlSpec Proofs.SgmlNest Proofs.SgmlScan Proofs.SgmlFaithful Proofs.SgmlReject Proofs.SgmlCfg.
 Local Open Scope N_scope.
 (** For EVERY text [s] (no hypothesis): if feed+close return a tree, then every regex match passed the checks of feed(),
     and the sequence of start / data-element / empty-aggregate / end events they denote is properly nested, properly closed
     and single-rooted ([nested]: end tags name the open aggregate; only data elements omit end tags), with exactly the
-    returned tree.  (Text that matches no alternative of the regex is skipped by finditer and is not part of [toks].) *)
-Theorem parse_ok_implies_nested : forall (s : text) (t : etree),
-  parse repaired s = OK (Some t) -> exists es, toks repaired s = OK es /\ nested es t.
-Proof. exact parse_ok_implies_nested_l. Qed.
+    returned tree.  (Text that matches no alternative of the regex is skipped by finditer and is not part of [toks].)
+    [g]: any source configuration with the repaired builder ([checked]); the regex variant is immaterial here. *)
+Theorem parse_ok_implies_nested : forall (g : cfg) (s : text) (t : etree), checked g = true ->
+  parse g s = OK (Some t) -> exists es, toks g s = OK es /\ nested es t.
+Proof. intros g s t Hg. exact (parse_ok_implies_nested_g g s t Hg). Qed.
 Print Assumptions parse_ok_implies_nested.
